@@ -228,13 +228,19 @@ impl Session {
             })
             .map_err(|e| Fail::Protocol(format!("spawn: {}", e)))?;
         let mut sess = Session { sched, m_handle: Some(m_handle), cursor: 0, over: false };
-        sess.wait(|s| s.m == MState::WaitingLine && s.t == TState::BlockedInRecv)?;
+        sess.wait(|s| s.m == MState::WaitingLine && s.t == TState::Idle)?;
         Ok(sess)
     }
 
     fn wait<F: Fn(&crate::sched::State) -> bool>(&mut self, cond: F) -> Result<(), Fail> {
         let g = self.sched.lock();
-        let g = self.sched.wait_until(g, |s| s.panicked.is_some() || cond(s)).map_err(|_| Fail::Timeout("scheduler wait exceeded the real-time limit".into()))?;
+        let g = match self.sched.wait_until(g, |s| s.panicked.is_some() || cond(s)) {
+            Ok(g) => g,
+            Err(()) => {
+                let st = self.sched.lock();
+                return Err(Fail::Timeout(format!("scheduler wait exceeded the real-time limit (turn {:?}, M {:?}, T {:?}, undelivered messages {})", st.turn, st.m, st.t, st.pending)));
+            }
+        };
         if let Some((r, m)) = g.panicked.clone() {
             return Err(Fail::Panic(r, m));
         }
@@ -261,8 +267,6 @@ impl Session {
             self.sched.cv.notify_all();
         }
         self.wait(|s| s.turn == Role::S && s.m != MState::Running)?;
-        // T may be on its way from recv() to idle_exit: wait for it to park
-        self.wait(|s| !(s.t == TState::BlockedInRecv && s.pending > 0))?;
         Ok(())
     }
 
@@ -271,13 +275,8 @@ impl Session {
         {
             let mut g = self.sched.lock();
             match g.t {
-                TState::AtPoll => {
-                    // the drain loop that follows empties the channel; the `drained` hook zeroes `pending`
+                TState::AtPoll | TState::Idle => {
                     self.sched.next_event_node.store(next_event, Ordering::SeqCst);
-                }
-                TState::AtIdleExit => {
-                    // queued messages are drained at the first poll: park there to learn about it
-                    self.sched.next_event_node.store(if g.pending > 0 { 0 } else { next_event }, Ordering::SeqCst);
                 }
                 other => return Err(Fail::Protocol(format!("release_t while T is {:?}", other))),
             }
@@ -285,7 +284,6 @@ impl Session {
             self.sched.cv.notify_all();
         }
         self.wait(|s| s.turn == Role::S || s.m == MState::Exited)?;
-        self.wait(|s| s.m == MState::Exited || !(s.t == TState::BlockedInRecv && s.pending > 0))?;
         if self.m_state() == MState::Exited {
             self.over = true;
         }
@@ -307,13 +305,9 @@ impl Session {
 
     /// Let T consume every message that is already queued while it is idle.
     pub fn settle_idle(&mut self) -> Result<(), Fail> {
-        let mut guard = 0;
-        while !self.over && self.t_state() == TState::AtIdleExit {
+        // the idle thread looks into its channel, processes everything that is there and parks again
+        if !self.over && self.t_state() == TState::Idle {
             self.release_t(u64::MAX)?;
-            guard += 1;
-            if guard > 1000 {
-                return Err(Fail::Protocol("idle thread keeps dequeuing".into()));
-            }
         }
         Ok(())
     }
@@ -325,10 +319,10 @@ impl Session {
             let mut guard = 0;
             while self.m_state() != MState::Exited {
                 let t = self.t_state();
-                if t == TState::AtIdleExit || t == TState::AtPoll {
+                if t == TState::Idle || t == TState::AtPoll {
                     self.release_t(u64::MAX)?;
                 } else {
-                    self.wait(|s| s.m == MState::Exited || s.t == TState::AtIdleExit || s.t == TState::AtPoll)?;
+                    self.wait(|s| s.m == MState::Exited || s.t == TState::Idle || s.t == TState::AtPoll)?;
                 }
                 guard += 1;
                 if guard > 10_000 {
@@ -465,6 +459,9 @@ impl<'a> Gui<'a> {
     /// Read new events into the log; check output grammar; optionally collect a search window.
     fn absorb_events(&mut self, mut win: Option<&mut SearchWindow>) -> Result<(), V> {
         for e in self.sess.new_events() {
+            if std::env::var_os("VERIF_TRACE").is_some() {
+                eprintln!("EV {:?}", e);
+            }
             match e {
                 Event::Fed(l) => self.log.write_str(&format!("F:{}", l)),
                 Event::Parsed(p) => self.log.write_str(&format!("P:{}", p)),
@@ -691,6 +688,7 @@ impl<'a> Gui<'a> {
         let mut win = SearchWindow { outs: vec![], infos: vec![], best: None, bestmove_count: 0, polls: vec![], idle_fen: None, stop_delivered_at: None, ended_by_quit: false, last_nodes_polled: 0 };
         self.absorb_events(Some(&mut win))?;
         if c.stop_before_dequeue {
+            // the search thread has not looked into its channel yet: go and stop are both queued
             self.feed_checked("stop", false)?;
             self.res.bump("fault.stop_queued_before_go_dequeued");
             win.stop_delivered_at = Some(0);
@@ -740,13 +738,8 @@ impl<'a> Gui<'a> {
                 break;
             }
             let t = self.sess.t_state();
-            if t == TState::BlockedInRecv {
-                break;
-            }
-            if t == TState::AtIdleExit {
-                // the search ended before its first poll and went straight on to dequeue a message
-                // that was queued meanwhile (e.g. a stop sent before go was dequeued)
-                self.res.bump("probe.queued_message_outlived_search");
+            if t == TState::Idle {
+                // the search is over and the thread has already consumed whatever was still queued
                 break;
             }
             if t != TState::AtPoll {
